@@ -107,7 +107,13 @@ fn col_equalities(p: &LogicalPlan) -> usize {
     let mut n = 0;
     for_each_node(p, &mut |node| {
         match node {
-            LogicalPlan::Join(j) => n += j.on.iter().filter(|(l, r)| matches!((l, r), (E::Column(_), E::Column(_)))).count(),
+            LogicalPlan::Join(j) => {
+                n += j.on.iter().filter(|(l, r)| matches!((l, r), (E::Column(_), E::Column(_)))).count();
+                // PackedJoinKeys' `a*K + b = c*K + d` stands for the two equalities it
+                // encodes: nothing was lost (a wrong K is a defect of its own, not this finding)
+                let packed = |e: &E| matches!(e, E::BinaryExpr { left, op: BinaryOp::Add, .. } if matches!(&**left, E::BinaryExpr { op: BinaryOp::Multiply, .. }));
+                n += 2 * j.on.iter().filter(|(l, r)| packed(l) && packed(r)).count();
+            }
             LogicalPlan::DelimJoin(j) => n += j.on.len(),
             _ => {}
         }
@@ -559,6 +565,36 @@ impl Check for OptVsUnopt {
     }
 }
 
+/// Third check: the *key-packing* rules. PackedJoinKeys / PackedGroupKeys encode
+/// two integer keys as one using bounds from footer statistics; the encoding is
+/// only injective when the bounds cover BOTH sides' columns. The general table
+/// generator gives all key columns of a join similar domains; this one gives
+/// every column its own width (2 … 70 000) and INTEGER or BIGINT keys, and
+/// generates only the shapes the two rules fire on. Same differential oracle.
+pub struct PackedKeys;
+
+impl Check for PackedKeys {
+    type Case = OptCase;
+    fn name(&self) -> &'static str {
+        "packed_integer_keys"
+    }
+    fn rule(&self) -> &'static str {
+        "the statement binds, the unoptimized plan executes, and the production optimizer's plan text differs from the bound plan's (two-key joins / two-key GROUP BY over Parquet tables whose key columns have pairwise different domain widths)"
+    }
+    fn cases(&self, tier: Tier) -> u32 {
+        tier.pick(400, 30_000)
+    }
+    fn max_shrink_iters(&self) -> u32 {
+        150
+    }
+    fn strategy(&self, tier: Tier) -> BoxedStrategy<OptCase> {
+        opt_case_strategy_packing(tier)
+    }
+    fn test(&self, c: &OptCase, obs: &mut Obs) -> Verdict {
+        OptVsUnopt { core: true, all_configs_everywhere: false }.test(c, obs)
+    }
+}
+
 pub fn property() -> Property {
     Property {
         id: "C03",
@@ -568,6 +604,6 @@ pub fn property() -> Property {
             "statements whose reference evaluation overflows / yields -0.0 are engine-defined and discarded",
             "exactly one side failing with an error is not an answer change: an optimizer-side error is C31's subject, an unexecutable bound plan is inconclusive",
         ],
-        checks: vec![Box::new(OptVsUnopt { core: true, all_configs_everywhere: false }), Box::new(OptVsUnopt { core: false, all_configs_everywhere: false })],
+        checks: vec![Box::new(OptVsUnopt { core: true, all_configs_everywhere: false }), Box::new(OptVsUnopt { core: false, all_configs_everywhere: false }), Box::new(PackedKeys)],
     }
 }
